@@ -300,8 +300,8 @@ func genPat(t *rapid.T, depth int, syms []string) Pat {
 	if depth <= 0 {
 		return genLit(t, syms)
 	}
-	switch rapid.IntRange(0, 13).Draw(t, "node") {
-	case 0, 1, 2, 3:
+	switch rapid.IntRange(1, 15).Draw(t, "node") {
+	case 1, 2, 3:
 		return genLit(t, syms)
 	case 4, 5, 6:
 		n := rapid.IntRange(2, 3).Draw(t, "nseq")
@@ -317,7 +317,7 @@ func genPat(t *rapid.T, depth int, syms []string) Pat {
 			p.C = append(p.C, genPat(t, depth-1, syms))
 		}
 		return p
-	case 9, 10, 11:
+	case 9, 10, 11, 14, 15:
 		p := Pat{K: "rep", C: []Pat{genPat(t, depth-1, syms)}}
 		p.Min, p.Max, p.Q = genQuant(t)
 		return p
@@ -339,7 +339,7 @@ func genPat(t *rapid.T, depth int, syms []string) Pat {
 
 func genCase(t *rapid.T) Case {
 	var c Case
-	nsym := rapid.IntRange(1, 4).Draw(t, "nsym")
+	nsym := []int{1, 2, 2, 3, 3, 4}[rapid.IntRange(0, 5).Draw(t, "nsym")]
 	syms := allSyms[:nsym]
 	// top level: mostly a sequence, so that most patterns need several rows
 	if rapid.IntRange(0, 3).Draw(t, "top") > 0 {
@@ -388,13 +388,13 @@ func genCase(t *rapid.T) Case {
 	}
 	for _, s := range usedSyms {
 		d := Def{Sym: s}
-		switch rapid.IntRange(0, 9).Draw(t, "defkind") {
-		case 0:
+		switch rapid.IntRange(-1, 9).Draw(t, "defkind") {
+		case -1, 0:
 			continue // undefined: always true
 		case 1, 2, 3:
-			d.Kind, d.C = "gt", rapid.IntRange(0, 8).Draw(t, "c")
+			d.Kind, d.C = "gt", rapid.IntRange(0, 6).Draw(t, "c")
 		case 4, 5:
-			d.Kind, d.C = "lt", rapid.IntRange(1, 9).Draw(t, "c")
+			d.Kind, d.C = "lt", rapid.IntRange(3, 9).Draw(t, "c")
 		case 6:
 			d.Kind = "gtprev"
 		case 7:
@@ -406,7 +406,11 @@ func genCase(t *rapid.T) Case {
 		}
 		c.Defs = append(c.Defs, d)
 	}
-	c.Skip = rapid.SampledFrom([]string{"", "past", "next", "next", "first", "last", "var"}).Draw(t, "skip")
+	skips := []string{"", "past", "next", "next", "first", "last", "var"}
+	if pbt.Open("C15", "skip-to-symbol") {
+		skips = skips[:4] // known finding
+	}
+	c.Skip = rapid.SampledFrom(skips).Draw(t, "skip")
 	if c.Skip == "first" || c.Skip == "last" || c.Skip == "var" {
 		c.SkipSym = rapid.SampledFrom(usedSyms).Draw(t, "skipsym")
 	}
@@ -419,7 +423,10 @@ func genCase(t *rapid.T) Case {
 	lens := make([]int, nparts)
 	total := 0
 	for i := range lens {
-		lens[i] = rapid.IntRange(0, 14).Draw(t, "plen")
+		lens[i] = rapid.IntRange(0, 20).Draw(t, "plen")
+		if lens[i] > 14 {
+			lens[i] = 14
+		}
 		total += lens[i]
 	}
 	tsmode := rapid.IntRange(0, 5).Draw(t, "tsmode")
@@ -497,6 +504,28 @@ func genCase(t *rapid.T) Case {
 			}
 		}
 		c.Events = append(c.Events, Event{ID: id, P: p, V: rapid.IntRange(0, 9).Draw(t, "v"), TS: ts})
+	}
+	if pbt.Open("C15", "emit-order") {
+		// known finding: end the partition just before the row at which the engine would report a later
+		// start ahead of an earlier one (everything still open is then resolved, in order, by the flush)
+		for {
+			p, at := emitOrderOffense(c)
+			if p < 0 {
+				break
+			}
+			var kept []Event
+			k := 0
+			for _, e := range c.Events {
+				if e.P == p {
+					k++
+					if k > at {
+						continue
+					}
+				}
+				kept = append(kept, e)
+			}
+			c.Events = kept
+		}
 	}
 	return c
 }
@@ -690,15 +719,13 @@ func runCase(c Case) (res pbt.Result) {
 	flushMatch := false
 	absentSkipSym := false
 	for p := 0; p < nparts; p++ {
-		m := &matcher{defs: defs, rows: parts[p], within: c.WithinNs, limit: maxWork}
-		infos := make([]startInfo, len(parts[p]))
-		for s := range parts[p] {
-			infos[s] = m.explore(&c.Pattern, s)
+		m, infos, ok := exploreAll(c, defs, parts[p])
+		for s := range infos {
 			if len(infos[s].lens) >= 2 {
 				multiLen = true
 			}
 		}
-		if m.over || m.steps > maxSteps {
+		if !ok {
 			guardRisk = true
 			continue // the engine's run-count guard could be hit: no verdict for this partition
 		}
@@ -764,6 +791,50 @@ func runCase(c Case) (res pbt.Result) {
 }
 
 type pstat struct{ flush, absent bool }
+
+func splitPartitions(c Case) (parts [][]prow) {
+	for _, e := range c.Events {
+		for e.P >= len(parts) {
+			parts = append(parts, nil)
+		}
+		parts[e.P] = append(parts[e.P], prow{id: e.ID, v: e.V, ts: normTs(c, e.TS)})
+	}
+	return
+}
+
+func defMap(c Case) map[string]Def {
+	defs := map[string]Def{}
+	for _, d := range c.Defs {
+		defs[d.Sym] = d
+	}
+	return defs
+}
+
+// exploreAll runs the reference enumeration for every start of one partition; ok=false when the
+// budgets were exceeded (no verdict).
+func exploreAll(c Case, defs map[string]Def, rows []prow) (m *matcher, infos []startInfo, ok bool) {
+	m = &matcher{defs: defs, rows: rows, within: c.WithinNs, limit: maxWork}
+	infos = make([]startInfo, len(rows))
+	for s := range rows {
+		infos[s] = m.explore(&c.Pattern, s)
+	}
+	return m, infos, !m.over && m.steps <= maxSteps
+}
+
+// emitOrderOffense: partition index and row index of the first out-of-order emission, or -1.
+func emitOrderOffense(c Case) (part, at int) {
+	defs := defMap(c)
+	for p, rows := range splitPartitions(c) {
+		_, infos, ok := exploreAll(c, defs, rows)
+		if !ok {
+			continue
+		}
+		if t := firstOffense(c, infos, len(rows)); t >= 0 {
+			return p, t
+		}
+	}
+	return -1, -1
+}
 
 // checkPartition walks the engine's matches of one partition from match i with next allowed start ns.
 func checkPartition(c Case, p int, rows []prow, infos []startInfo, m *matcher, eng []engMatch, i, ns, depth int) ([]pbt.Disc, pstat) {
@@ -969,6 +1040,12 @@ func features(c Case) []string {
 	}
 	if extendableAccept(&c.Pattern) && withinCanBind(c) {
 		f = append(f, "within-expires-extendable-match")
+	}
+	if c.Skip == "first" || c.Skip == "last" || c.Skip == "var" {
+		f = append(f, "skip-to-symbol")
+	}
+	if p, _ := emitOrderOffense(c); p >= 0 {
+		f = append(f, "emit-order")
 	}
 	if c.Skip != "next" && interleaved(c) {
 		f = append(f, "interleaved-skip")
